@@ -66,13 +66,25 @@ def run_c01(tier):
             jobs.append({'kind': 'verify', 'case': dict(c, id='v-%d' % len(jobs), seed=vlib.jseed(seed, len(jobs)))})
     for k in range(4 if tier == 'quick' else 300):
         jobs.append({'kind': 'verify-sweep', 'seed': seed * 7919 + k})
+    # the hash-to-curve pipeline as a case graph (HashToCurve.tla): chunk classes x representatives x relation
+    h2c = vlib.tlc(SPEC, 'HashToCurve', vlib.cfg({}, invariants=['IdentityIffOpposite', 'Emit'], properties=['RepresentativeForgotten', 'Termination']).replace('CONSTANTS\n', ''), name='h2c')
+    if not h2c.ok:
+        raise vlib.Undecided('HashToCurve: %s %s' % (h2c.violated, h2c.error))
+    ck.add_states(h2c, 'hash-to-curve pipeline over chunk residue class x representative x relation')
+    hcases = tlc_cases(h2c.out)
+    if len(hcases) < 200:
+        raise vlib.Undecided('HashToCurve enumeration produced %d cases' % len(hcases))
+    for r in range(1 if tier == 'quick' else 20):
+        for i, c in enumerate(hcases):
+            jobs.append({'kind': 'h2c', 'seed': vlib.jseed(seed, i, 500 + r), 'case': c})
+    ck.cov['hash_to_curve_cases'] = len(hcases)
     execute(ck, 'C01', jobs)
     for c in cases:
         ck.case(vlib.digest([c['key'], c['hasher'], c['sig']]), c['sig'] != 'valid' or c['expect'] != 'true')
     ck.cov['traces_validated_against_impl'] = len(jobs)
     ck.sample(cases[0])
     ck.sample([c for c in cases if c['sig'] == 'plusT' and c['hasher'] == 'kmac'][0])
-    ck.assumptions = ['H(m) is the library signature under sk = 1 (no independent hash-to-curve); all other arithmetic is harness/ref (math/big)',
+    ck.assumptions = ['H(m) is computed by the reference hash-to-curve of harness/ref/h2c.go over the harness KMAC128; the library signature under sk = 1 must equal it; all other arithmetic is harness/ref (math/big)',
                       'formal equality <=> byte equality up to 2^-250 (independent random scalars)',
                       'candidate strings are structured classes plus every single-bit flip and every length 0..200 of valid signatures']
     return ck.finish(rule='cases = (key form, hasher class, signature class) combinations enumerated by TLC, each concretised with fresh '
